@@ -229,10 +229,17 @@ F_LINES = {
 def _f_worker(args):
     pid, n, seed, corpus = args
     rng = random.Random(seed)
-    cfgs = list(corpus) + [factory.gen_config(rng, with_fleet=True) for _ in range(n)]
+    cfgs = list(corpus) + [factory.gen_config(rng, with_fleet=True) if i % 3 else factory.gen_config_sc(rng) for i in range(n)]
     out = dict(evals=0, tags=collections.Counter(), sigs=set(), dis=[], viol=[], samples=[], lines=0)
     for lo in range(0, len(cfgs), 100):
-        for r in factory.run_batch(cfgs[lo:lo + 100]):
+        batch = factory.run_batch(cfgs[lo:lo + 100])
+        if pid == "C03":
+            # the verified conservation monitor (coq/theories/Traces/Conserve.v) on the implementation's trace
+            ok = [r for r in batch if not any(l.startswith(("CRASH", "EXHAUSTED")) for l in r["impl"])]
+            for r, verdict in zip(ok, factory.run_monitor([r["case"] for r in ok], [r["impl"] for r in ok])):
+                if not verdict.startswith("ACCEPT"):
+                    out["viol"].append(dict(**{"class": "factory"}, message="conservation monitor: " + verdict, case=r["case"]))
+        for r in batch:
             c = r["case"]
             out["evals"] += 1
             out["lines"] += len(r["impl"])
@@ -270,7 +277,8 @@ def run_factory(pid, tier, seed):
         res["evaluations"] += o["evals"]; res["traces"] += o["evals"]; res["distinct_nontrivial"] += o["sigs"]
         res["disagreements"] += o["dis"]; res["violations"] += o["viol"]; res["samples"] += o["samples"]
         tags.update(o["tags"]); lines += o["lines"]
-    res["rule"] = ("random factories: 1-2 sources, 0-2 layers of 1-2 machines, 1-2 sinks, fan-in/fan-out, Buffer (FIFO/LIFO, delay "
+    res["rule"] = ("random factories (two thirds: 1-2 sources, 0-2 layers of 1-2 machines, 1-2 sinks, fan-in/fan-out; one third: pallet "
+                   "source + item sources -> combiner -> optional machine -> splitter -> sinks), Buffer (FIFO/LIFO, delay "
                    "stream constant/callable/generator) and Fleet edges, every blocking flag, work_capacity 1-3, policies "
                    "FIRST_AVAILABLE / ROUND_ROBIN / constant / callable / generator on both sides, shuffled construction and connect "
                    "order, integer delays incl. 0, horizon 10-40; built from the real classes, run under the real kernel, and "
@@ -278,7 +286,7 @@ def run_factory(pid, tier, seed):
                    "Gallina factory model; distinct = distinct (shape, node kinds, per-node (blocking, policy, work_capacity), "
                    "situations reached); every factory moves items, so all are non-trivial")
     res["distribution"] = dict(factories_reaching=dict(tags), canonical_lines_compared=lines)
-    res["domain"] = "node types Source, Machine, Sink; edge types Buffer, Fleet (Splitter, Combiner and conveyors are not in the generator yet)"
+    res["domain"] = "node types Source (items / pallets), Machine, Splitter, Combiner, Sink; edge types Buffer, Fleet (conveyor belts are not in the factory model)"
     return res
 
 
@@ -346,6 +354,11 @@ SPECS = {
     "C05": dict(run=run_c05, trusted=L1_TRUST),
     "C06": dict(run=run_l1, trusted=L1_TRUST),
     "C07": dict(run=run_l1, trusted=L1_TRUST),
+    "C03": dict(run=run_factory, trusted=L2_TRUST + ["the monitor's acceptance of the sampled traces is a run-time check; whole-factory conservation for every configuration is not a theorem"]),
+    "C08": dict(run=run_factory, trusted=L2_TRUST),
+    "C15": dict(run=run_factory, trusted=L2_TRUST),
+    "C17": dict(run=run_factory, trusted=L2_TRUST + ["exact arithmetic in the theorems; the implementation uses binary floats (integer delays in the harness keep it exact)"]),
+    "C18": dict(run=run_factory, trusted=L2_TRUST + ["integer time ticks in the integral theorem"]),
     "C19": dict(run=run_c19, trusted=L2_TRUST + ["hash / identity dependence is a property of the CPython run, not of the model: it is tested (several hash seeds, allocation histories), not proved"]),
     "C11": dict(run=run_c11, trusted=["modelled, not verified: Buffer / BufferStore classes, SimPy kernel (its contract 'an event scheduled "
                                       "for t is processed at now = t, the clock never passes a pending event' is the legality condition "
